@@ -49,11 +49,30 @@ Clauses -> subchecks
     C06.transform.inverse_pair              t/-t, R/R^-1, s/1/s restore the coordinates
     C06.normalize.box                       box centred with largest extent 2 / anchored at 0 with largest extent 1
     C06.<event>.answers                     the call does not raise
+    C06.grow.isolation                      a mesh that grows in place (vertex appended / subdivided) changes no other
+                                            live mesh (its copies, the merges it went into, its sources), no caller array
 
 Unit-of-length deviation (input class suffix ":unit=2^e"): the same searches with every coordinate handed out by the
 producer multiplied by 2**e (exact, in place, storage layout untouched), points and vectors among the arguments
 expressed in that unit; coordinates are read back in that unit, so the expectations (exact images, relative
 tolerances, the box after normalising) are the same at every unit.
+
+Placement deviation (input class suffix ":placed=(3x,5y,7z)+2^40"): the same searches on geometry FAR FROM THE ORIGIN
+whose extents are neither powers of two nor in a dyadic ratio - every vertex (x, y, z) handed out by the producer
+becomes (3x, 5y, 7z) + (2^40, -2^40, 2^40) (exact for the dyadic producers; each vertex storage once, in place).
+The arguments stay as they are.  Exact operations are still compared exactly; after an operation that rounds at
+magnitude M (rotation, barycentre) the tolerance is relative to M; normalising is held to its documented box in absolute terms (1e-9) whenever the centre (anchor) of the
+box and every difference to it are exactly representable - decided exactly on the model, counted otherwise.
+
+Growth inside a history (event "grow", sweep "growsweep"): a live mesh gains vertices between two calls - a vertex
+appended through the public container, or the subdivision of its class run in place (split_edge /
+SurfaceSubdivision.split_face_as_fan / VolumeSubdivision.split_cell_as_fan).  The model takes the grown mesh as
+observed (the subdivisions' own correctness is C13); every OTHER live mesh must be untouched (C06.grow.isolation) and
+every later transform / copy / merge must treat the grown mesh like any other: all its vertices, each once.
+
+Vectors handed out by the library belong to the caller: in the sweeps (argument / rotation / growth) the caller obtains a
+vector from every factory of Vec (zeros(2), zeros(3), X(), Y(), Z()) and overwrites it in place before every transform
+call; three producers fill a mesh by hand with such vectors (so the mesh's own vertex objects come from the factories).
 """
 from __future__ import annotations
 import math, os, shutil, tempfile
@@ -66,15 +85,21 @@ ID = "C06"
 TECHNIQUE = "explicit-state BFS over histories of copy/merge/transform calls on live real meshes vs exact reference tuples"
 RULE = ("explicit-state BFS over all histories of copy (4 flag combinations) / merge([a,b]) / merge([a,a]) / merge([a,b,a]) / "
         "translate / rotate (matrix, Rotation, Euler list and tuple) / scale / scale_xyz / normalize (both modes) / fit_into_unit_cube / "
-        "translate_to_origin / flatten / connectivity query / edit of element rows (undone), applied to any mesh of a live set "
-        "of <= 3 meshes, started from each of the 74 producer configurations (13 loader files incl. a hexahedral .mesh, "
-        "from_arrays x 7 incl. two hexahedra, raw containers x 5 incl. a surface with a free-standing declared edge, a volume "
-        "with a free-standing declared face and a volume with one hexahedral and one tetrahedral cell, 35 procedural, "
+        "translate_to_origin / flatten / connectivity query / edit of element rows (undone) / growth in place (a vertex appended "
+        "through the container; split_edge, split_face_as_fan, split_cell_as_fan on the live mesh), applied to any mesh of a live set "
+        "of <= 3 meshes, started from each of the 77 producer configurations (13 loader files incl. a hexahedral .mesh, "
+        "from_arrays x 7 incl. two hexahedra, raw containers x 6 incl. a surface with a free-standing declared edge, a volume "
+        "with a free-standing declared face, a volume with one hexahedral and one tetrahedral cell and a surface made of vectors "
+        "from the factories of Vec, 2 meshes filled by hand through append() with such vectors, 35 procedural, "
         "merge x 2 (polyline+surface, tetrahedron+hexahedron), 8 subdivisions, 3 boundary extractions, reorder_vertices) and from 8 pairs of them; every merge event is "
         "repeated under complete_edges_from_faces=False and under complete_faces_from_cells=False; plus a sweep of the 24 "
         "axis rotations in every argument form with their inverses; plus, per producer, a depth-1 sweep over 144 argument "
         "combinations of the transforms (each followed by its inverse) and the same searches at two other units of length "
-        "(coordinates x 2^-50, x 2^50); a case is one distinct (canonical dump of the real "
+        "(coordinates x 2^-50, x 2^50) and far from the origin with extents in no dyadic ratio ((x,y,z) -> (3x,5y,7z) + "
+        "(2^40,-2^40,2^40)); plus, per producer, every history [before, growth, after] on one mesh with before in {nothing, "
+        "translate, scale, rotate, connectivity query, normalize}, growth in {vertex appended, subdivision of its class}, after = "
+        "one transform of each of the 8 kinds; in all sweeps the caller overwrites a vector obtained from every factory of "
+        "Vec before every transform call; a case is one distinct (canonical dump of the real "
         "meshes and caller arrays incl. aliasing pattern, model) state reached by >= 1 event")
 ASSUMPTIONS = [
     "transform parameters: t in {(1,0,0),(-1,0,0),(1/2,-2,4),(-1/2,2,-4)}, s in {2,1/2} about 0 and about (1,0,-1), "
@@ -119,28 +144,63 @@ ASSUMPTIONS = [
     "multiplied once, in place, by 2**e: exact), not by asking the producer for another size; skipped (counted as unit 1) "
     "when a vertex is not held in a writeable float array; a normalised mesh is read in unit 1; a merge result is read "
     "in the largest unit of its inputs",
+    "placement deviation: applied by the harness to the producer's output ((x,y,z) -> (3x,5y,7z) + 2^40*(1,-1,1), each vertex "
+    "storage once, in place; arguments and origins are NOT moved); skipped (counted placement_not_applicable) unless every "
+    "vertex is a writeable float64 / int64 3-vector; exact comparison while every coordinate is a dyadic with denominator "
+    "<= 2^10 and numerator <= 2^51 and only translate / scale / scale_xyz / flatten were applied; after a rotation or "
+    "translate_to_origin (they round at the magnitude M of the coordinates) the tolerance is 1e-9 * max(1, |value|, M), "
+    "carried through later scalings; normalize is held to 1e-9 absolute on its output and 1e-7 on its box whenever the mesh is "
+    "still exact and min + max (centred) and every coordinate minus the centre (minus min) are doubles - decided exactly on the "
+    "model; otherwise its error bound is 1e-9 * M * scale factor (counted placed_normalize_position_rounded); flatten with "
+    "dim omitted is only asked when the two smallest variances differ by more than 1% of max(second smallest, 1)",
+    "growth: the vertex appended is Vec(3,-2,1/2) (in the unit of the mesh); the subdivisions run on element 0; the grown "
+    "mesh (coordinates, elements, corner containers) is taken as observed - the statement says nothing about what a "
+    "subdivision produces (C13) - and a growth that raises is counted, not reported; what IS checked: no other live mesh, "
+    "caller array or attribute changes (C06.grow.isolation) and every later event treats the grown mesh by the same "
+    "clauses as any other mesh; a volume is only subdivided when all its cells are tetrahedra",
+    "factory vectors: Vec.zeros(2), Vec.zeros(3), Vec.X(), Vec.Y(), Vec.Z() - each obtained and overwritten in place "
+    "((v + 7) * -3) before every transform call of the argument / rotation / growth sweeps (not in the BFS); the library "
+    "documents each of them as returning a vector, not a shared constant",
+    "a history replayed on freshly produced meshes that no longer leads to its recorded state is reported as "
+    "C06.transform.isolation / side_effect:state_outside_the_meshes_changed and that search is abandoned",
     "corner containers are read through their _elem / _adj lists (what save() and RawMeshData use); for a merge result "
     "only internal consistency with its own faces / cells is demanded, an empty cell_faces container is accepted",
 ]
 BOUNDS = {
-    "quick": "74 producer configurations: all histories of <= 2 events (full menu; reduced menu for the 13 configurations "
+    "quick": "77 producer configurations: all histories of <= 2 events (full menu; reduced menu for the 13 configurations "
              "with >= 12 vertices or 2-3 starting meshes); 9 sharing-prone / one-per-class configurations <= 3 events "
              "(reduced menu, mini menu for the 2 boundary configurations); 8 producer pairs <= 2 events (reduced menu); rotation sweep "
              "(23 rotations x 3 argument forms, each followed by its inverse) on 4 producers; argument sweep (144 combinations + "
-             "inverses) on every producer at unit 1 and its 42 form-free classes at units 2^-50 and 2^50; 6 sharing-prone "
-             "configurations <= 2 events (reduced / mini menu) at units 2^-50 and 2^50; live set <= 3 meshes",
-    "thorough": "74 producer configurations: all histories of <= 2 events (full menu) and <= 3 events (reduced menu; full "
+             "inverses) on every producer at unit 1 and its 42 form-free classes at units 2^-50 and 2^50 and at the far placement; 6 sharing-prone "
+             "configurations <= 2 events (reduced / mini menu) at units 2^-50 and 2^50 and at the far placement; growth sweep on every "
+             "producer (first and last mesh x <= 2 ways of growing x 6 'before' x 8 'after'); growth events are in the full menu only; "
+             "live set <= 3 meshes",
+    "thorough": "77 producer configurations: all histories of <= 2 events (full menu) and <= 3 events (reduced menu; full "
                 "menu for 8 sharing-prone / one-per-class configurations); 64 configurations (< 12 vertices, one starting mesh, "
                 "plus the 3 boundary configurations and reorder_vertices) <= 4 events (mini menu); 4 sharing-prone configurations <= 4 events "
                 "(reduced menu); 8 producer pairs <= 3 events (reduced menu); rotation sweep on 12 producers; argument sweep (144 combinations) on every producer at units 1, 2^-50, 2^50; "
                 "every configuration <= 2 events (reduced menu) and 14 configurations <= 3 events (mini menu) at units 2^-50 and "
-                "2^50; live set <= 3 meshes; "
+                "2^50; at the far placement: argument sweep (144 combinations) and <= 2 events (reduced menu) on every producer, "
+                "14 configurations <= 3 events (mini menu); growth sweep as in quick; live set <= 3 meshes; "
                 "searches with > 10^4 transitions are split by their first event into independent shards",
 }
 
 MAX_LIVE = 3
 ARG_SUB = "C06.transform.argument_combinations"
 UNITS = (-50, 50)        # unit-of-length deviations: every coordinate of the producer's meshes times 2**-50 / 2**50 (exact)
+FAR = 40                 # placement deviation: (x, y, z) -> (3x, 5y, 7z) + (2**FAR, -2**FAR, 2**FAR)
+FAR_MULT = (3, 5, 7)     # (extents that are neither powers of two nor in a dyadic ratio: the factor of normalize is not
+FAR_SIGNS = (1, -1, 1)   #  exact and the normalised coordinates are not multiples of the spacing of doubles at 2**FAR)
+FAR_NAME = ":placed=(3x,5y,7z)+2^%d" % FAR
+# exactness bounds of the model ("small dyadic": float operations on such values are exact when the result is one too);
+# far from the origin the numerators are large and the denominators small; var_margin / var_floor: flatten(dim omitted)
+# is only asked when the two smallest variances differ by more than var_margin * max(second smallest, var_floor) (the
+# variance numpy computes at magnitude 2^40 carries an absolute error of up to (n * ulp(2^40))^2 ~ 3e-5)
+DYADIC_DEFAULT = {"den": 1 << 20, "num": 1 << 40, "var_margin": Fr(1, 10 ** 6), "var_floor": Fr(1, 10 ** 6)}
+DYADIC_FAR = {"den": 1 << 10, "num": 1 << 51, "var_margin": Fr(1, 100), "var_floor": Fr(1)}
+_DY = dict(DYADIC_DEFAULT)
+GROW_POINT = (3, -2, Fr(1, 2))        # the vertex appended by the event ("grow", i, "append"), in the unit of the mesh
+GROW_OPS = ("append", "subdivide")
 ORIG = (1, 0, -1)
 GORIG = (1, 2, -1)
 _T = {"T0": (Fr(1), Fr(0), Fr(0)), "T0n": (Fr(-1), Fr(0), Fr(0)),
@@ -269,7 +329,7 @@ MENUS = {
         rotate=[f"m:{RZ90}:0", f"o:{RZ270}:0", f"e:{RX90}:0", f"t:{RX270}:0", "o:g+:o", "o:g-:o"],
         scale=["2", "half", "2@o", "half@o", "2@v", "half@v"], scale_xyz=["A", "Ainv", "A@o", "Ainv@o", "A@v"],
         normalize=[True, False, "fit"], to_origin=True, flatten=[2, 0], touch=True,
-        copy=[(False, False), (True, False), (False, True), (True, True)], merge3=True, edit=True),
+        copy=[(False, False), (True, False), (False, True), (True, True)], merge3=True, edit=True, grow=GROW_OPS),
     "reduced": dict(
         translate=["T1", "T1n"], rotate=[f"m:{RZ90}:0"], scale=["2", "2@v"], scale_xyz=["A"], normalize=[True], to_origin=True,
         flatten=[2], touch=False, copy=[(False, False), (True, True)], merge3=False, edit=True),
@@ -277,6 +337,12 @@ MENUS = {
         translate=["T1"], rotate=[f"o:{RZ270}:0"], scale=[], scale_xyz=[], normalize=[False], to_origin=False,
         flatten=[2], touch=False, copy=[(False, False)], merge3=False, edit=True),
 }
+
+# growth sweep: every history [pre, grow, post] on one mesh; pre = what the mesh went through before it grew (nothing /
+# a transform of each kind / a connectivity query), post = one transform of every kind (the inverse of pre among them)
+GROW_PRE = [None, ("translate", "T1"), ("scale", "2"), ("rotate", f"m:{RZ90}:0"), ("touch",), ("normalize", True)]
+GROW_POST = [("translate", "T1n"), ("scale", "half"), ("rotate", f"o:{RZ270}:0"), ("scale_xyz", "Ainv"), ("normalize", True),
+             ("normalize", False), ("to_origin",), ("flatten", 2)]
 
 
 def _recip(table, key):
@@ -351,6 +417,14 @@ def tasks(tier):
         for n in DEEP[:6]:
             for ue in UNITS:
                 out.append({"kind": "bfs", "start": [n], "menu": "mini" if n in TWO else "reduced", "depth": 2, "unit": ue})
+        # placement deviation (far from the origin, size not a power of two)
+        for n in names:
+            out.append({"kind": "argsweep", "start": [n], "args": "core", "far": FAR})
+        for n in DEEP[:6]:
+            out.append({"kind": "bfs", "start": [n], "menu": "mini" if n in TWO else "reduced", "depth": 2, "far": FAR})
+        # growth inside a history: every [before, grow, after] on every producer
+        for n in names:
+            out.append({"kind": "growsweep", "start": [n], "pre": list(range(len(GROW_PRE)))})
     else:
         deep1 = [n for n in DEEP if n not in TWO]
         for n in names:
@@ -374,6 +448,12 @@ def tasks(tier):
         for n in DEEP:
             for ue in UNITS:
                 out.append({"kind": "bfs", "start": [n], "menu": "mini", "depth": 3, "unit": ue})
+        for n in names:
+            out.append({"kind": "argsweep", "start": [n], "args": "all", "far": FAR})
+            out.append({"kind": "bfs", "start": [n], "menu": "reduced", "depth": 2, "far": FAR})
+            out.append({"kind": "growsweep", "start": [n], "pre": list(range(len(GROW_PRE)))})
+        for n in DEEP:
+            out.append({"kind": "bfs", "start": [n], "menu": "mini", "depth": 3, "far": FAR})
     # big searches are split by their first event (k-th shard takes the root events with index = k mod n); the shards
     # are independent searches, so a state reachable through two first events is explored in both
     split = []
@@ -394,6 +474,8 @@ def tasks(tier):
     def weight(t):
         if t["kind"] == "argsweep":
             return (6 if t["args"] == "all" else 2) * (3 if any(n in TWO or n in BIG for n in t["start"]) else 1)
+        if t["kind"] == "growsweep":
+            return len(t["pre"]) * (3 if any(n in TWO or n in BIG for n in t["start"]) else 1)
         if t["kind"] != "bfs":
             return 1
         w = cost[t["menu"]] ** t["depth"] * len(t["start"]) ** 2 / (t["shard"][1] if "shard" in t else 1)
@@ -419,7 +501,8 @@ def read_vertices(m, u=1.0):
             out.append(None)
         else:
             x, y, z = a.tolist()
-            out.append((float(x) / u, float(y) / u, float(z) / u))
+            p = (float(x) / u, float(y) / u, float(z) / u)
+            out.append(p if all(math.isfinite(c) for c in p) else None)      # (a vertex at infinity / nan is malformed)
     return out, {_DT.get(c, c) for c in dts}
 
 
@@ -481,12 +564,31 @@ def frs(p):
 
 def small_dyadic(q):
     d = q.denominator
-    return d & (d - 1) == 0 and d <= (1 << 20) and abs(q.numerator) <= (1 << 40)
+    return d & (d - 1) == 0 and d <= _DY["den"] and abs(q.numerator) <= _DY["num"]
 
 
-def close(x, q, tol):
+def close(x, q, tol, mag=0.0):
+    """mag: magnitude at which an earlier operation on this mesh had to round (placement deviation), 0 otherwise"""
     qf = float(q)
-    return abs(x - qf) <= tol * max(1.0, abs(qf))
+    return abs(x - qf) <= tol * max(1.0, abs(qf), mag)
+
+
+def representable(q):
+    """the rational q is a double (float(Fraction) rounds correctly)"""
+    return Fr(float(q)) == q
+
+
+def box_exact(V, centred):
+    """normalize loses nothing about the POSITION of the box: min + max (centred) is a double on every axis and so is
+    every difference between a coordinate and the centre (the anchor)"""
+    for r in range(3):
+        mn, mx = min(p[r] for p in V), max(p[r] for p in V)
+        if centred and not representable(mn + mx):
+            return False
+        a = (mn + mx) / 2 if centred else mn
+        if not all(representable(p[r] - a) for p in V):
+            return False
+    return True
 
 
 def cyc(f):
@@ -641,7 +743,7 @@ def flatten_dim(spec, V):
         var = variances(V)
         order = sorted(range(3), key=lambda r: var[r])
         a, b = var[order[0]], var[order[1]]
-        if a + Fr(1, 10 ** 6) * max(b, Fr(1, 10 ** 6)) >= b:
+        if a + _DY["var_margin"] * max(b, _DY["var_floor"]) >= b:
             return None
         return order[0]
     if isinstance(spec, str):
@@ -683,7 +785,7 @@ PRIMITIVE = {"translate": "transform.translate", "normalize": "transform.transla
 CALLEE = {"translate": "transform.translate", "normalize": "transform.normalize", "to_origin": "transform.translate_to_origin",
           "flatten": "transform.flatten", "rotate": "transform.rotate", "scale": "transform.scale",
           "scale_xyz": "transform.scale_xyz", "copy": "mesh.copy", "merge": "mesh.merge", "touch": "connectivity",
-          "edit": "DataContainer.__setitem__"}
+          "edit": "DataContainer.__setitem__", "grow": "mesh growth (append / subdivision)"}
 TRANSFORMS = ("translate", "rotate", "scale", "scale_xyz", "normalize", "to_origin", "flatten")
 
 
@@ -730,8 +832,10 @@ def arg_class(ev):
 
 # ---------------------------------------------------------------------------------------------------
 class Live:
-    __slots__ = ("real", "label", "kind", "parents", "V", "el", "mtype", "exact", "tol", "attrs", "blocks", "ue", "corners")
+    __slots__ = ("real", "label", "kind", "parents", "V", "el", "mtype", "exact", "tol", "attrs", "blocks", "ue", "corners", "mag")
     # ue: the unit of length of this mesh is 2**ue - the model V and every coordinate read back are expressed in it
+    # mag: placement deviation only - the largest magnitude at which an operation on this mesh had to round so far (its
+    #      coordinates carry an absolute error of that order times 1e-16); 0 while every operation was exact
 
 
 class Caller:
@@ -748,6 +852,8 @@ class St:
         self.live = []
         self.callers = []
         self.links = []          # (node, node, label); node = ("m", i) | ("c", k)
+        self.placed = True       # placement deviation: applied to every starting mesh (meaningless without the deviation)
+        self.grew = False        # the last growth event went through
         self.prev = None         # (event, real coordinates of its target before it, clean)
 
 
@@ -804,6 +910,27 @@ def change_unit(b, ue):
     return True
 
 
+def change_place(b):
+    """Placement deviation: every vertex p of every mesh the producer handed out becomes FAR_MULT * p + 2**FAR *
+    FAR_SIGNS (componentwise) - in place, each vertex storage once (two vertex slots holding one vector, a caller array the mesh is a
+    view of: the producer's storage layout stays).  -> False (nothing done) unless every vertex is a writeable
+    float64 / int64 numpy 3-vector"""
+    import numpy as np
+    slots, seen = [], set()
+    for m, _ in b.meshes:
+        for v in m.vertices._data:
+            if not isinstance(v, np.ndarray) or v.shape != (3,) or v.dtype.char not in "dlq" or not v.flags.writeable:
+                return False
+            p = vptr(v)
+            if p not in seen:
+                seen.add(p)
+                slots.append(v)
+    for v in slots:
+        v *= np.array(FAR_MULT, dtype=v.dtype)
+        v += np.array([s * 2 ** FAR for s in FAR_SIGNS], dtype=v.dtype)
+    return True
+
+
 def make(task, ctx):
     from mc.c06_producers import PRODUCERS
     st = St()
@@ -811,10 +938,12 @@ def make(task, ctx):
     for name in task["start"]:
         b = PRODUCERS[name](ctx)
         mue = ue if (ue and change_unit(b, ue)) else 0          # not applicable: this producer stays at unit 1
+        st.placed = bool(task.get("far")) and change_place(b) and st.placed
         off = len(st.live)
         for m, label in b.meshes:
             L = Live()
             L.real, L.label, L.kind, L.parents, L.tol, L.blocks, L.ue = m, label, "base", [], 1e-9, None, mue
+            L.mag = 0.0
             sync(L)
             st.live.append(L)
         for i, j, label in b.links:
@@ -832,7 +961,7 @@ def make(task, ctx):
 
 def state_key(st):
     body = canon([L.real for L in st.live], [c.arr for c in st.callers], skip_attrs=("type",))
-    mod = tuple((L.label, L.kind, tuple(L.parents), L.exact, L.tol, L.mtype, L.ue, tuple(L.V),
+    mod = tuple((L.label, L.kind, tuple(L.parents), L.exact, L.tol, L.mtype, L.ue, L.mag, tuple(L.V),
                  tuple(sorted((k, tuple(v)) for k, v in L.el.items()))) for L in st.live)
     k = (body, mod)
     return (hash(k), hash((k, 1)))
@@ -1010,6 +1139,56 @@ def path_tops(paths):
 
 
 # ---------------------------------------------------------------------------------------------------
+# growth of a live mesh inside a history
+def grow_ops(L):
+    """the ways the mesh of L can gain a vertex in place: a vertex appended through the public container (every class),
+    the subdivision of its class (a polyline with an edge, a surface with a face, a volume whose cells are all
+    tetrahedra)"""
+    ops = ["append"]
+    if L.mtype == "PolyLine" and L.el.get("edges"):
+        ops.append("subdivide")
+    elif L.mtype == "SurfaceMesh" and L.el.get("faces"):
+        ops.append("subdivide")
+    elif L.mtype == "VolumeMesh" and L.el.get("cells") and all(len(c) == 4 for c in L.el["cells"]):
+        ops.append("subdivide")
+    return ops
+
+
+SUBDIVIDER = {"PolyLine": "split_edge", "SurfaceMesh": "SurfaceSubdivision.split_face_as_fan",
+              "VolumeMesh": "VolumeSubdivision.split_cell_as_fan"}
+
+
+def grow_real(L, op):
+    """runs the growth on the real mesh (in place: the mesh object stays the one the history holds)"""
+    import mouette as M
+    m = L.real
+    if op == "append":
+        u = 2.0 ** L.ue
+        m.vertices.append(M.Vec(*[float(c) * u for c in GROW_POINT]))
+    elif L.mtype == "PolyLine":
+        from mouette.mesh.subdivision import split_edge
+        split_edge(m, 0)
+    elif L.mtype == "SurfaceMesh":
+        with M.mesh.SurfaceSubdivision(m) as s:
+            s.split_face_as_fan(0)
+    else:
+        with M.mesh.VolumeSubdivision(m) as s:
+            s.split_cell_as_fan(0)
+
+
+def overwrite_factory_vectors():
+    """The caller obtains a vector from every factory of Vec and overwrites it in place: what the library hands out
+    belongs to the caller.  -> number of vectors overwritten"""
+    from mouette import Vec
+    n = 0
+    for v in (Vec.zeros(2), Vec.zeros(3), Vec.X(), Vec.Y(), Vec.Z()):
+        v += 7.0
+        v *= -3.0
+        n += 1
+    return n
+
+
+# ---------------------------------------------------------------------------------------------------
 class Run:
     def __init__(self, task, rep: Report, ctx):
         self.task, self.rep, self.ctx = task, rep, ctx
@@ -1017,6 +1196,10 @@ class Run:
         self.hist = ()
         self.reported = {}
         self.ue = int(task.get("unit", 0))
+        self.far = int(task.get("far", 0))
+        self.suffix = ""             # growth sweep: class of the history the mesh went through (part of the input class)
+        self.grow_buffer = None      # growth sweep: reports about a transform after a growth are summarised at its end
+        self.scribble = task["kind"] != "bfs"       # sweeps: factory vectors are overwritten before every transform call
         self.is_argsweep = task["kind"] == "argsweep"
         self.arg_buffer = None       # argument sweep: reports of the sweep's own clause are summarised at its end
         self.arg_tested = {}         # transform kind -> set of argument classes exercised
@@ -1032,8 +1215,13 @@ class Run:
         if sub == ARG_SUB and self.arg_buffer is not None:
             self.arg_buffer.append((callee, kind, icls, dict(detail, history=[list(e) for e, _ in self.hist])))
             return
+        if self.suffix and self.grow_buffer is not None:
+            self.grow_buffer.append((sub, callee, kind, icls, self.suffix, dict(detail, history=[list(e) for e, _ in self.hist])))
+            return
         if self.ue:                                  # unit-of-length deviation: coarse class of the magnitude
             icls += ":unit=2^%+d" % self.ue
+        if self.far:                                 # placement deviation
+            icls += FAR_NAME
         fp = (sub, callee, kind, icls)
         c = self.reported.get(fp, 0)
         self.reported[fp] = c + 1
@@ -1043,6 +1231,9 @@ class Run:
         d = {"start": self.task["start"], "history": [list(e) for e, _ in self.hist]}
         if self.ue:
             d["unit"] = "the producer's coordinates were multiplied by 2**%d before the history" % self.ue
+        if self.far:
+            d["placement"] = "every vertex p of the producer's meshes was replaced by %r*p + 2**%d*%r (componentwise) before the history" % (
+                list(FAR_MULT), FAR, list(FAR_SIGNS))
         d.update(detail)
         self.rep.violation(sub, callee, kind, icls, d)
 
@@ -1084,6 +1275,10 @@ class Run:
         if mn["edit"]:
             for i in range(n):
                 evs.append(("edit", i))
+        for i in range(n):
+            for op in grow_ops(st.live[i]):
+                if op in mn.get("grow", ()):
+                    evs.append(("grow", i, op))
         return evs
 
     # -- comparing every live object with its model ----------------------------------------------
@@ -1098,7 +1293,7 @@ class Run:
             if len(rv) != len(L.V):
                 cnt.append((y, len(rv), len(L.V)))
                 continue
-            exact, tol = L.exact, L.tol
+            exact, tol, mag = L.exact, L.tol, L.mag
             for j, (p, q) in enumerate(zip(rv, L.V)):
                 if p is None or q is None:
                     if (p is None) != (q is None):
@@ -1107,7 +1302,7 @@ class Run:
                 if exact:
                     ok = p[0] == q[0] and p[1] == q[1] and p[2] == q[2]       # float == Fraction is exact
                 else:
-                    ok = close(p[0], q[0], tol) and close(p[1], q[1], tol) and close(p[2], q[2], tol)
+                    ok = close(p[0], q[0], tol, mag) and close(p[1], q[1], tol, mag) and close(p[2], q[2], tol, mag)
                 if not ok:
                     mism.append((y, j, p, q))
             if count:
@@ -1298,6 +1493,8 @@ class Run:
             bad = self._touch(st, ev, check)
         elif kind == "edit":
             bad = self._edit(st, ev, check)
+        elif kind == "grow":
+            bad = self._grow(st, ev, check)
         else:
             raise AssertionError(ev)
         if bad or resync:
@@ -1387,6 +1584,10 @@ class Run:
         a, kw, watch = self._real_args(ev, X)
         if check and self.is_argsweep:
             self.arg_tested.setdefault(CALLEE[kind], set()).add(arg_class(ev))
+        if self.scribble:
+            n_over = overwrite_factory_vectors()
+            if check:
+                rep.count("factory_vectors_overwritten", n_over)
         o = call(fn, X.real, *a, **kw)
         prev = st.prev
         st.prev = (ev, before, False)
@@ -1404,11 +1605,16 @@ class Run:
             return True
         if any(p is None for p in X.V):
             return True
+        oldV, was_exact = X.V, X.exact
         newV, exact_op = model_map(ev, X.V)
         X.V = newV
         X.exact = bool(X.exact and exact_op and all(small_dyadic(c) for p in newV for c in p))
         if kind == "normalize":
             X.ue = 0                                 # a normalised mesh has no unit: its box is [-1,1]^3 / [0,1]^3
+        if self.far:
+            strict_box = self.far_magnitude(X, ev, oldV, was_exact, check)
+        else:
+            strict_box = True
         if not check:
             return False
         rep.flag("event:" + kind)
@@ -1432,7 +1638,7 @@ class Run:
             mn = [min(p[r] for p in after) for r in range(3)]
             mx = [max(p[r] for p in after) for r in range(3)]
             ext = max(mx[r] - mn[r] for r in range(3))
-            tol = 100 * X.tol
+            tol = 100 * X.tol * (1.0 if strict_box else max(1.0, X.mag))
             if ev[2] is True:
                 okb = abs(ext - 2) <= tol and all(abs(mn[r] + mx[r]) <= tol for r in range(3))
             else:
@@ -1449,12 +1655,65 @@ class Run:
                 same = after == was
             else:
                 same = len(after) == len(was) and all(
-                    abs(p[r] - q[r]) <= 10 * X.tol * max(1.0, abs(q[r])) for p, q in zip(after, was) for r in range(3))
+                    abs(p[r] - q[r]) <= 10 * X.tol * max(1.0, abs(q[r]), X.mag) for p, q in zip(after, was) for r in range(3))
             if not same:
                 self.viol("C06.transform.inverse_pair", CALLEE[kind], "mismatch:not_restored", self.pclass(ev),
                           {"events": [list(prev[0]), list(ev)], "before": was, "after": after, "mesh_producer": X.label})
                 return True
         return False
+
+    def far_magnitude(self, X, ev, oldV, was_exact, check):
+        """Placement deviation: keeps X.mag - the magnitude at which operations on X had to round so far - up to date
+        for the event just applied (oldV = model before it).  -> the normalised box is held to absolute accuracy"""
+        kind = ev[0]
+        big = float(max(abs(c) for p in oldV for c in p)) if oldV else 0.0
+        strict = True
+        if kind in ("rotate", "to_origin"):
+            X.mag = max(X.mag, big)
+        elif kind == "scale":
+            X.mag *= max(1.0, abs(float(SCALES[ev[2]][0])))
+        elif kind == "scale_xyz":
+            X.mag *= max(1.0, max(abs(float(f)) for f in XYZ[ev[2]][0]))
+        elif kind == "normalize":
+            centred = ev[2] is True
+            ext = max(max(p[r] for p in oldV) - min(p[r] for p in oldV) for r in range(3))
+            if was_exact and X.mag == 0.0 and box_exact(oldV, centred):
+                if check:
+                    self.rep.count("placed_normalize_position_exact")
+            else:                                    # the position of the box is rounded at magnitude `big`, then scaled
+                X.mag = max(X.mag, big) * float((2 if centred else 1) / ext)
+                strict = False
+                if check:
+                    self.rep.count("placed_normalize_position_rounded")
+        return strict
+
+    def _grow(self, st, ev, check):
+        """a live mesh gains a vertex in place; the grown mesh is taken as observed, every other live mesh, every caller
+        array must be what it was"""
+        rep = self.rep
+        _, i, op = ev
+        X = st.live[i]
+        st.prev = None
+        o = call(grow_real, X, op)
+        how = "append" if op == "append" else SUBDIVIDER[X.mtype]
+        st.grew = o.ok
+        if not o.ok:                                 # (the subdivisions' own behaviour is C13: counted, not reported)
+            if check:
+                rep.count("grow_raises:" + how)
+                rep.outcome("grow", (how, "raises:" + o.exc))
+            return True
+        bad = False
+        if check:
+            rep.flag("event:grow")
+            rep.flag("grow:%s:%s" % (op, X.mtype))
+            rep.count("grow_events")
+            n0 = len(X.V)
+            bad = self.compare_all(st, ev, [i], skip=(i,))
+            rv, _ = read_vertices(X.real, 2.0 ** X.ue)
+            rep.outcome("grow", (how, len(rv) - n0))
+        sync(X)
+        X.blocks = None
+        return bad
 
     def _touch(self, st, ev, check):
         X = st.live[ev[1]]
@@ -1478,6 +1737,7 @@ class Run:
         L = Live()
         L.real, L.label, L.kind, L.parents, L.blocks = real, label, kind, list(parents), None
         L.ue = max(st.live[p].ue for p in parents)   # a merge of meshes of different units is read in the largest one
+        L.mag = max(st.live[p].mag for p in parents)
         L.tol = max(st.live[p].tol for p in parents)
         sync(L)                                      # elements / attributes / class as observed; V and exact set by the caller
         L.tol = max(L.tol, max(st.live[p].tol for p in parents))
@@ -1846,6 +2106,9 @@ class Run:
         rep = self.rep
         n = 0
         st0 = make(self.task, self.ctx)
+        if self.far and not st0.placed:
+            rep.count("placement_not_applicable")
+            return
         targets = sorted({0, len(st0.live) - 1})
         self.initial_checks(st0)
         self.arg_buffer = []
@@ -1887,10 +2150,87 @@ class Run:
             self.hist = tuple((tuple(e), False) for e in det.pop("history"))
             self.viol(ARG_SUB, callee, kind, ":".join(toks), det)
 
+    def growsweep(self):
+        """Every history [pre, grow, post] on one mesh (the first and the last mesh the producer hands out): pre in
+        GROW_PRE (task["pre"] selects), grow in grow_ops of that mesh, post in GROW_POST.  pre and grow are checked the
+        first time they are run, then replayed; post is checked every time (input class: how the mesh grew and what it
+        had been through before)."""
+        rep = self.rep
+        st0 = make(self.task, self.ctx)
+        targets = sorted({0, len(st0.live) - 1})
+        n = ev_n = 0
+        self.grow_buffer = []
+        tested = set()
+        for i in targets:
+            for op in grow_ops(st0.live[i]):
+                how = "append" if op == "append" else SUBDIVIDER[st0.live[i].mtype]
+                for pk in self.task["pre"]:
+                    pre = GROW_PRE[pk]
+                    e0 = None if pre is None else (pre[0], i) + tuple(pre[1:])
+                    eg = ("grow", i, op)
+                    b0 = bg = None
+                    for post in GROW_POST:
+                        st = make(self.task, self.ctx)
+                        first = bg is None
+                        hist = ()
+                        self.suffix = ""
+                        if e0 is not None:
+                            if self.excluded(st, e0):
+                                break
+                            self.hist = ((e0, False),)
+                            b0 = self.apply(st, e0, True) if first else self.apply(st, e0, False, resync=b0) or b0
+                            hist = ((e0, b0),)
+                        self.hist = hist + ((eg, False),)
+                        bg = self.apply(st, eg, True) if first else self.apply(st, eg, False, resync=bg) or bg
+                        hist += ((eg, bg),)
+                        ev_n += len(hist) if first else 0
+                        if not st.grew:
+                            rep.count("growsweep_growth_refused")
+                            break
+                        e2 = (post[0], i) + tuple(post[1:])
+                        if self.excluded(st, e2):
+                            continue
+                        self.suffix = "%s:%s:%s" % (st.live[i].mtype, how, pre[0] if pre else "nothing")
+                        tested.add(self.suffix)
+                        self.hist = hist + ((e2, False),)
+                        self.apply(st, e2, True)
+                        self.suffix = ""
+                        n += 1
+                        ev_n += 1
+                        rep.flag("growsweep:%s:before=%s" % (how, pre[0] if pre else "nothing"))
+                        rep.flag("growsweep:after=" + post[0])
+                        rep.case((tuple(self.task["start"]), "grow", e0, eg, e2))
+        rep.transitions += ev_n
+        rep.traces += n
+        rep.states += n
+        rep.count("growsweep_histories", n)
+        # ---- one report per (clause, kind of failure, class of mesh): the input class says how the mesh had grown and
+        # what it had been through before ("any" when every exercised value fails); the transforms that fail are
+        # named in the callee when there are at most two of them
+        buf, self.grow_buffer = self.grow_buffer, None
+        groups = {}
+        for sub, callee, kind, icls, suf, det in buf:
+            groups.setdefault((sub, kind, suf.split(":")[0]), []).append((callee, icls, suf.split(":"), det))
+        for (sub, kind, mtype), items in sorted(groups.items()):
+            callees = sorted({c for c, _, _, _ in items})
+            toks = []
+            for pos in (1, 2):
+                F = {sf[pos] for _, _, sf, _ in items}
+                T = {t.split(":")[pos] for t in tested if t.split(":")[0] == mtype}
+                toks.append("any" if (F == T and len(T) > 1) else "|".join(sorted(F)))
+            det = dict(items[0][3], failing=sorted({"%s(%s) after %s, before that %s" % (c, ic, sf[1], sf[2])
+                                                    for c, ic, sf, _ in items})[:24])
+            self.hist = tuple((tuple(e), False) for e in det.pop("history"))
+            self.viol(sub, "|".join(callees) if len(callees) <= 2 else "transform.*", kind,
+                      "mesh=%s:grown_by=%s:before_that=%s" % (mtype, toks[0], toks[1]), det)
+
     def explore(self):
         rep = self.rep
         depth = self.task["depth"]
         st = make(self.task, self.ctx)
+        if self.far and not st.placed:
+            rep.count("placement_not_applicable")
+            return 0, 0
         self.initial_checks(st)
         k0 = state_key(st)
         seen = {k0}
@@ -1900,7 +2240,16 @@ class Run:
             hist, kk = frontier.popleft()
             st = self.replay(hist)
             if state_key(st) != kk:
-                raise RuntimeError(f"replay divergence: history {hist!r} does not lead back to its recorded state")
+                # the same calls on freshly produced meshes no longer give the same meshes: something OUTSIDE the live
+                # meshes (state of the library shared by all meshes) was changed by the history.  Reported, and this
+                # search is abandoned (its recorded states cannot be reached again)
+                self.hist = hist
+                self.viol("C06.transform.isolation", "history replayed on freshly produced meshes",
+                          "side_effect:state_outside_the_meshes_changed", "producer=" + "+".join(L.label for L in st.live[:len(self.task["start"])]),
+                          {"what": "replaying the recorded history on fresh objects does not lead back to the recorded state",
+                           "vertices_now": [read_vertices(L.real)[0] for L in st.live]})
+                rep.count("replay_divergences")
+                break
             evs = self.events_of(st)
             if not hist and self.task.get("shard"):
                 k, n = self.task["shard"]
@@ -1973,6 +2322,8 @@ def run_task(task, rep: Report):
     cfg = mouette.config
     switches = (cfg.complete_edges_from_faces, cfg.complete_faces_from_cells)     # process-global: left as found
     d = tempfile.mkdtemp(prefix="c06_", dir="/dev/shm")
+    _DY.clear()
+    _DY.update(DYADIC_FAR if task.get("far") else DYADIC_DEFAULT)
     try:
         write_files(d)
         r = Run(task, rep, Ctx(d))
@@ -1986,11 +2337,17 @@ def run_task(task, rep: Report):
             r.argsweep()
             rep.flag("argsweep:%s:unit=%d" % (task["args"], task.get("unit", 0)))
             rep.count("argsweep_tasks")
+        elif task["kind"] == "growsweep":
+            r.growsweep()
+            rep.count("growsweep_tasks")
         else:
             r.rotsweep()
         if task.get("unit"):
             rep.flag("unit:%d" % task["unit"])
             rep.count("unit_deviation_tasks")
+        if task.get("far"):
+            rep.flag("placed:%s:%s" % (task["kind"], task.get("args", task.get("menu"))))
+            rep.count("placement_deviation_tasks")
     finally:
         cfg.complete_edges_from_faces, cfg.complete_faces_from_cells = switches
         shutil.rmtree(d, ignore_errors=True)
@@ -2003,10 +2360,27 @@ def finish(tier, rep: Report):
     ran = rep.counters.get("bfs_tasks", 0)
     if ran < len(PRODUCERS) or sum(1 for f in rep.flags if f.startswith("producer:")) < len(PRODUCERS):
         return fails                                     # --only run: the guards below are about the full sweep
-    if len(PRODUCERS) != 74:
-        fails.append(f"producer registry has {len(PRODUCERS)} entries, pinned count is 74")
-    if rep.counters.get("argsweep_tasks", 0) < 3 * len(PRODUCERS):
-        fails.append("argument sweep did not run on every producer at every unit")
+    if len(PRODUCERS) != 77:
+        fails.append(f"producer registry has {len(PRODUCERS)} entries, pinned count is 77")
+    if rep.counters.get("argsweep_tasks", 0) < 4 * len(PRODUCERS):
+        fails.append("argument sweep did not run on every producer at every unit and far from the origin")
+    if rep.counters.get("growsweep_tasks", 0) < len(PRODUCERS):
+        fails.append("growth sweep did not run on every producer")
+    # growth: every way of growing, after every kind of 'before', followed by every kind of transform
+    for how in ("append",) + tuple(SUBDIVIDER.values()):
+        for pre in GROW_PRE:
+            f = "growsweep:%s:before=%s" % (how, pre[0] if pre else "nothing")
+            if f not in rep.flags:
+                fails.append("growth history never run: " + f)
+    for post in GROW_POST:
+        if "growsweep:after=" + post[0] not in rep.flags:
+            fails.append("no transform of this kind after a growth: " + post[0])
+    for cls in ORDER:
+        if "grow:append:" + cls not in rep.flags:
+            fails.append("no vertex appended to a live " + cls)
+    # placement deviation: applied somewhere, strict box reached, rounded position reached
+    if rep.counters.get("placement_not_applicable", 0) >= rep.counters.get("placement_deviation_tasks", 0):
+        fails.append("placement deviation was applicable to no task")
     for n in PRODUCERS:
         if "producer:" + n not in rep.flags:
             fails.append("producer never explored: " + n)
@@ -2025,13 +2399,16 @@ def finish(tier, rep: Report):
               "args:scale_xyz:factors=identity:keywords:orig=given", "args:scale:factor=negative:int:orig=given",
               "args:scale:factor=positive:numpy_int:orig=own_vertex", "args:translate:t=ndarray", "args:translate:t=own_vertex",
               "args:flatten:dim=omitted", "args:flatten:dim=numpy_int", "args:rotate:rot=euler_tuple:axis:orig=own_vertex",
-              "args:normalize:fit_into_unit_cube") + tuple("unit:%d" % u for u in UNITS):
+              "args:normalize:fit_into_unit_cube", "event:grow", "placed:argsweep:core" if tier == "quick" else "placed:argsweep:all",
+              "placed:bfs:reduced", "producer:hand.pointcloud", "producer:hand.polyline", "producer:raw.factory") \
+            + tuple("unit:%d" % u for u in UNITS):
         if f not in rep.flags:
             fails.append("coverage flag missing: " + f)
     for c in ("exact_comparisons", "inverse_pair_checks", "normalize_box_checks", "rotsweep_histories", "transform_events",
               "merge_shared_state_checks", "merge_cfg_variants", "producer_link_checks", "edit_rows_rebound",
               "edit_rows_assigned:list", "edit_rows_assigned:ndarray", "argsweep_events", "copy_container_checks",
-              "merge_corner_checks", "unit_deviation_tasks"):
+              "merge_corner_checks", "unit_deviation_tasks", "placement_deviation_tasks", "placed_normalize_position_exact",
+              "placed_normalize_position_rounded", "factory_vectors_overwritten", "grow_events", "growsweep_histories"):
         if rep.counters.get(c, 0) == 0:
             fails.append("never evaluated: " + c)
     if not any(f.startswith("merge:") and "+" in f for f in rep.flags):
